@@ -43,49 +43,54 @@ func CreateInMemory(parse parser.Parser) (*InMemory, error) {
 	root.node = rootInMemoryNode{}
 	root.pos = 0
 	root.parent = &root
-	err := createInMemory(&root, parse, 0, nil)
+	err := createInMemory(&root, parse, 0)
 	return &root, err
 }
 
-func createInMemory(cursor *InMemory, parse parser.Parser, pos int, inherited []Cursor) error {
-	n, isEnd, err := parse.Pull()
+func createInMemory(cursor *InMemory, parse parser.Parser, pos int) error {
+	// Namespaces in scope on the parent of the element being opened. They are
+	// copied to the element once its own declarations are complete.
+	var inherited []Cursor
 
-	if ns, ok := n.(node.Namespace); ok && err == nil && !isEnd {
-		pos = addNamespace(ns, cursor, pos)
-		return createInMemory(cursor, parse, pos, inherited)
+	for {
+		n, isEnd, err := parse.Pull()
+
+		if ns, ok := n.(node.Namespace); ok && err == nil && !isEnd {
+			pos = addNamespace(ns, cursor, pos)
+			continue
+		}
+
+		pos = inheritNamespaces(cursor, inherited, pos)
+		inherited = nil
+
+		if errors.Is(err, io.EOF) {
+			return nil
+		}
+
+		if err != nil {
+			return err
+		}
+
+		if isEnd {
+			cursor = cursor.parent
+			continue
+		}
+
+		switch v := n.(type) {
+		case node.Attribute:
+			pos++
+			cursor.attributes = append(cursor.attributes, createNonElement(v, cursor, pos))
+		case node.Element:
+			pos++
+			next := createElement(v, cursor, pos)
+			cursor.nodes = append(cursor.nodes, next)
+			inherited = cursor.namespaces
+			cursor = next
+		default:
+			pos++
+			cursor.nodes = append(cursor.nodes, createNonElement(v, cursor, pos))
+		}
 	}
-
-	// The element's own namespace declarations are complete. Give it its own
-	// copies of the namespaces it inherits from its parent.
-	pos = inheritNamespaces(cursor, inherited, pos)
-
-	if errors.Is(err, io.EOF) {
-		return nil
-	}
-
-	if err != nil {
-		return err
-	}
-
-	if isEnd {
-		return createInMemory(cursor.parent, parse, pos, nil)
-	}
-
-	switch v := n.(type) {
-	case node.Attribute:
-		pos++
-		cursor.attributes = append(cursor.attributes, createNonElement(v, cursor, pos))
-	case node.Element:
-		pos++
-		next := createElement(v, cursor, pos)
-		cursor.nodes = append(cursor.nodes, next)
-		return createInMemory(next, parse, pos, cursor.namespaces)
-	default:
-		pos++
-		cursor.nodes = append(cursor.nodes, createNonElement(v, cursor, pos))
-	}
-
-	return createInMemory(cursor, parse, pos, nil)
 }
 
 func addNamespace(ns node.Namespace, cursor *InMemory, pos int) int {
